@@ -59,6 +59,13 @@ CHECKS = {
  'C15': dict(engine='L', technique='explicit-state BFS over escape graphs built with the real AddEdge/MergeNodeStatus (lattice laws on all pairs/triples), enumerated weakenings for monotonicity of the real transfer function, explicit-state search over all worklist orders of the real ProcessBlock',
              text='(a) all graphs within d operations of the empty graph over 3-4 node universes: idempotence, commutativity, upper bound, absorption on all pairs, associativity on triples, with the real Merge/LessEqual/Matches; (b) T(g)<=T(w) for the fixpoint graph g at every instruction of every summarised function and every well-typed one-step (thorough: two-step) weakening w; (c) every worklist order of the block-level iteration reaches the tool\'s fixpoint.',
              note='hook file analysis/escape/zz_verif.go is overlay-added (build tag verif); whole-program worklist orders not explored', ref='§6 C15'),
+
+ 'C13': dict(engine='P+S', technique='exhaustive enumeration of concurrent subjects (mechanism x placement x sync x binding) + stateless DFS over all interleavings of their shim rendering under the controlled scheduler (preemption-bounded) vs real taint analysis with escape analysis',
+             text='Every (source,sink) pair observed in some explored interleaving of a 2-3 goroutine subject must be reported as a taint flow or as an escape of that source by the analysis of the plain rendering with use-escape-analysis.',
+             note='preemption bound 2 (quick) / 4 (thorough), most subjects exhausted; -race conformance pass not implemented', ref='§6 C13'),
+ 'C14': dict(engine='P+S', technique='same exploration; per-access (line, goroutine, location) log vs instruction locality obtained through the public escape interface',
+             text='A line whose memory instructions are all classified local (nil rationale in the arbitrary context of its function) must never access a location that another goroutine has already accessed in the same explored execution.',
+             note='observed sharing, not reachability (weaker, one-sided); arbitrary contexts only', ref='§6 C14'),
 }
 NA = []
 def main():
